@@ -53,7 +53,7 @@ Theorem events_prefix_of_postorder h : forall e,
   (forall v, fst (xval h e) = ROk v -> map ref_of (snd (xval h e)) = refs e).
 Proof.
   intros e. split; [|intros v Hv; exact (events_postorder h e v Hv)].
-  induction e as [d|ip fp|fp|pn|pa pb|str|xe|n|k lab|k1 l1 k2 l2|sp name args IHargs|sp items IHitems|e IH|b l r IHl IHr|e IH] using expr_ind'.
+  induction e as [d|ip fp|fp|pn|pa pb|str|xe|n|k lab|k1 l1 k2 l2|sp name args IHargs|sp items IHitems|rs row1 row2 IHr1 IHr2|e IH|b l r IHl IHr|e IH] using expr_ind'.
   - apply prefix_nil.
   - apply prefix_nil.
   - apply prefix_nil.
@@ -75,6 +75,13 @@ Proof.
   - cbn [xval refs]. destruct (xvals_prefix h items IHitems) as [PA FA].
     destruct (ebind_trace (xvals (xval h) items) (fun vs => (ROk (VList vs), @nil event))) as [(vs & Hvs & T & F)|(N & T & F)];
       rewrite T; cbn [snd]; rewrite ?app_nil_r; exact PA.
+  - cbn [xval refs]. destruct (xvals_prefix h row1 IHr1) as [P1 F1]. destruct (xvals_prefix h row2 IHr2) as [P2 F2].
+    destruct (ebind_trace (xvals (xval h) row1) (fun a => ebind (xvals (xval h) row2) (fun b => (ROk (VList [VList a; VList b]), @nil event))))
+      as [(vs1 & H1 & T & F)|(N & T & F)]; rewrite T.
+    + rewrite map_app. destruct (F1 vs1 H1) as [E1 _]. rewrite E1. apply prefix_app_l.
+      destruct (ebind_trace (xvals (xval h) row2) (fun b => (ROk (VList [VList vs1; VList b]), @nil event))) as [(vs2 & H2 & T2 & F2')|(N2 & T2 & F2')];
+        rewrite T2; cbn [snd]; rewrite ?app_nil_r; exact P2.
+    + apply prefix_app_r, P1.
   - cbn [xval refs]. destruct (ebind_trace (xval h e) (fun v => (of_outcome (eval_neg v), []))) as [(w & Hw & T & F)|(N & T & F)];
       rewrite T; cbn [snd]; rewrite ?app_nil_r; exact IH.
   - cbn [xval refs].
